@@ -36,6 +36,13 @@ Theorem json_total_failed_reader :
 Proof. exact json_total_failed_reader_proof. Qed.
 Print Assumptions json_total_failed_reader.
 
+(* json_inv (the hypothesis of the per-call theorems below) holds of every state reachable by calling Next *)
+Theorem json_inv_reachable :
+  forall d n tr, trace n (json_init d) = Some tr ->
+    json_inv d (json_init d) /\ Forall (fun up => json_inv d (snd up)) tr.
+Proof. exact json_inv_reachable_proof. Qed.
+Print Assumptions json_inv_reachable.
+
 (* Every call either reports ErrorGrammar or moves the cursor forward by at least one byte; the cursor
    never moves back and never leaves the input. *)
 Theorem json_progress :
